@@ -31,7 +31,7 @@ def _ctx_motif(rng):
     more than one of them (double faults: a resume failure followed by a pause failure while the
     failed task's generator is closed, ...)."""
     nctx = rng.randint(1, 3)
-    nitems = rng.randint(1, 3)
+    nitems = rng.randint(2, 3)
     ys = [["y", ["t", [["item", rng.randint(0, 2), rng.randint(0, 5)] for _ in range(rng.randint(1, 2))]]] for _ in range(nitems)]
     body = ys
     for i in range(nctx):
@@ -40,9 +40,18 @@ def _ctx_motif(rng):
     if rng.random() < 0.5:
         templates.insert(0, {"kind": "fn", "steps": [["try", [["y", ["call", 1, []]]], "all", [["y", ["item", 0, 1]]]]]})
     faults = {"items": {}, "flushes": {}, "ctx": {}}
-    for i in range(1, nctx + 1):
-        if rng.random() < 0.7:
-            faults["ctx"]["#%d" % i] = [rng.choice(["resume", "pause"]), rng.randint(1, 4)]
+    if nctx >= 2 and rng.random() < 0.5:
+        # targeted double fault: when the suspended task is resumed for the k-th time one context's
+        # resume() raises, and while the failed task's generator is closed another context's
+        # pause() raises too (its k-th pause)
+        k = rng.randint(2, min(3, nitems + 1))
+        a, b = rng.sample(range(1, nctx + 1), 2)
+        faults["ctx"]["#%d" % a] = ["resume", k]
+        faults["ctx"]["#%d" % b] = ["pause", k]
+    else:
+        for i in range(1, nctx + 1):
+            if rng.random() < 0.7:
+                faults["ctx"]["#%d" % i] = [rng.choice(["resume", "pause"]), rng.randint(1, 4)]
     return {"templates": templates, "root": {"tmpl": 0, "conv": rng.choice(["call", "value", "wrapped"])}, "kinds": 3,
             "svs": 2, "yield_only": True, "reentry": False, "faults": faults, "prio": gen.gen_prio(rng, 3)}
 
@@ -53,7 +62,8 @@ def _overflow_motif(rng):
     width = rng.randint(5, 9)
     limit = rng.randint(3, width - 1)
     pre = [["y", ["item", rng.randint(0, 2), 0]]] if rng.random() < 0.5 else []
-    post = [["y", ["item", rng.randint(0, 2), rng.randint(0, 5)]] for _ in range(rng.randint(1, 2))]
+    # afterwards the enclosing task goes on with 0-2 further requests (0: it returns in the same step)
+    post = [["y", ["item", rng.randint(0, 2), rng.randint(0, 5)]] for _ in range(rng.randint(0, 2))]
     root = pre + [["try", [["s", ["call", 1, []], rng.choice(["call", "value"])]], "all", []]] + post
     wide = [["y", [rng.choice(["t", "l"]), [["call", 2, []] for _ in range(width)]]]]
     leaf = [["y", ["item", rng.randint(0, 2), 1]]] if rng.random() < 0.7 else []
